@@ -212,7 +212,14 @@ func VerifC14Reopen() {
 	addr := st.Address().String()
 
 	// creating over the existing local database is refused ...
-	_, err = p1.Create(ctx, name, typ, &CreateDBOptions{AccessController: acParams(writers), IO: e1.IO, Replicate: &no})
+	again := &CreateDBOptions{AccessController: acParams(writers), IO: e1.IO, Replicate: &no}
+	if vstub.NdChoice("second-create-names-a-directory", 2) == 1 {
+		// (the per-call directory option: the database exists locally all the same)
+		other := vstub.Dir("/data/elsewhere")
+		again.Directory = &other
+		vstub.Cover("second-create-with-directory-option")
+	}
+	_, err = p1.Create(ctx, name, typ, again)
 	vstub.Assert(err != nil, "C14 creating over an existing local database is refused")
 	// ... unless overwrite is requested
 	yes := true
